@@ -1006,6 +1006,19 @@ func (r *Runtime) checkObjectCoercible(v Value) {
 	}
 }
 
+// floatToInt64Mod returns the integer part of a finite float64 modulo 2^64 as required by the
+// ECMAScript ToInt32/ToUint32/... operations. A plain int64(f) conversion is not defined for |f| >= 2^63.
+func floatToInt64Mod(f float64) int64 {
+	if f >= -9223372036854775808.0 && f < 9223372036854775808.0 {
+		return int64(f)
+	}
+	f = math.Mod(math.Trunc(f), 18446744073709551616.0)
+	if f < 0 {
+		f += 18446744073709551616.0
+	}
+	return int64(uint64(f))
+}
+
 func toInt8(v Value) int8 {
 	v = v.ToNumber()
 	if i, ok := v.(valueInt); ok {
@@ -1015,7 +1028,7 @@ func toInt8(v Value) int8 {
 	if f, ok := v.(valueFloat); ok {
 		f := float64(f)
 		if !math.IsNaN(f) && !math.IsInf(f, 0) {
-			return int8(int64(f))
+			return int8(floatToInt64Mod(f))
 		}
 	}
 	return 0
@@ -1030,7 +1043,7 @@ func toUint8(v Value) uint8 {
 	if f, ok := v.(valueFloat); ok {
 		f := float64(f)
 		if !math.IsNaN(f) && !math.IsInf(f, 0) {
-			return uint8(int64(f))
+			return uint8(floatToInt64Mod(f))
 		}
 	}
 	return 0
@@ -1084,7 +1097,7 @@ func toInt16(v Value) int16 {
 	if f, ok := v.(valueFloat); ok {
 		f := float64(f)
 		if !math.IsNaN(f) && !math.IsInf(f, 0) {
-			return int16(int64(f))
+			return int16(floatToInt64Mod(f))
 		}
 	}
 	return 0
@@ -1099,7 +1112,7 @@ func toUint16(v Value) uint16 {
 	if f, ok := v.(valueFloat); ok {
 		f := float64(f)
 		if !math.IsNaN(f) && !math.IsInf(f, 0) {
-			return uint16(int64(f))
+			return uint16(floatToInt64Mod(f))
 		}
 	}
 	return 0
@@ -1114,7 +1127,7 @@ func toInt32(v Value) int32 {
 	if f, ok := v.(valueFloat); ok {
 		f := float64(f)
 		if !math.IsNaN(f) && !math.IsInf(f, 0) {
-			return int32(int64(f))
+			return int32(floatToInt64Mod(f))
 		}
 	}
 	return 0
@@ -1129,7 +1142,7 @@ func toUint32(v Value) uint32 {
 	if f, ok := v.(valueFloat); ok {
 		f := float64(f)
 		if !math.IsNaN(f) && !math.IsInf(f, 0) {
-			return uint32(int64(f))
+			return uint32(floatToInt64Mod(f))
 		}
 	}
 	return 0
@@ -1144,7 +1157,7 @@ func toInt64(v Value) int64 {
 	if f, ok := v.(valueFloat); ok {
 		f := float64(f)
 		if !math.IsNaN(f) && !math.IsInf(f, 0) {
-			return int64(f)
+			return floatToInt64Mod(f)
 		}
 	}
 	return 0
@@ -1159,7 +1172,7 @@ func toUint64(v Value) uint64 {
 	if f, ok := v.(valueFloat); ok {
 		f := float64(f)
 		if !math.IsNaN(f) && !math.IsInf(f, 0) {
-			return uint64(int64(f))
+			return uint64(floatToInt64Mod(f))
 		}
 	}
 	return 0
@@ -1174,7 +1187,7 @@ func toInt(v Value) int {
 	if f, ok := v.(valueFloat); ok {
 		f := float64(f)
 		if !math.IsNaN(f) && !math.IsInf(f, 0) {
-			return int(f)
+			return int(floatToInt64Mod(f))
 		}
 	}
 	return 0
@@ -1189,7 +1202,7 @@ func toUint(v Value) uint {
 	if f, ok := v.(valueFloat); ok {
 		f := float64(f)
 		if !math.IsNaN(f) && !math.IsInf(f, 0) {
-			return uint(int64(f))
+			return uint(floatToInt64Mod(f))
 		}
 	}
 	return 0
